@@ -97,6 +97,16 @@ fn batch_c19() -> BoxedStrategy<Vec<Rec>> {
         6 => proptest::collection::vec(rec(300), 0..8),
         3 => proptest::collection::vec(rec(2000), 0..40),
         1 => proptest::collection::vec(rec(200), 100..400),
+        // ordinary records around one record that is too large for any datagram (C20 allows the
+        // Jaeger reporter to skip that one; its neighbours are still transmitted exactly once)
+        2 => (proptest::collection::vec(rec(300), 2..12), any::<u16>(), 9000usize..20000).prop_map(|(mut v, at, n)| {
+            let i = (at as usize * (v.len() + 1)) >> 16;
+            let mut big = v[i.min(v.len() - 1)].clone();
+            big.span ^= 0x5a5a;
+            big.props.push(("big".to_string(), "x".repeat(n)));
+            v.insert(i, big);
+            v
+        }),
     ]
     .boxed()
 }
